@@ -174,9 +174,76 @@ def peel_not(ap):
     return ap, flip
 
 
-def cut_gate(fn, actions, accept):
+def helper_accept(F, fn, ap, accept, info, depth=2):
+    """`if helper(x, y)` where helper is a private bool function of the same crate (what `extract function` makes of a
+    condition): the helper's `true` is an accepting answer when, inside the helper, every way of returning a value that can be
+    true lies behind an accepting edge of a test the rule accepts (with the helper's parameters replaced by the caller's
+    arguments) or is itself the result of an accepted test; likewise for `false`.  Returns the set of accepting answers or None."""
+    import facts as _facts
+    root, projs = ap
+    if root[0] != "call" or projs or depth <= 0 or F is None:
+        return None
+    g = _facts.private_helper(F, fn.crate, root[1])
+    if g is None or g.locals[0] != "bool" or len(root[2]) != g.raw["arg_count"]:
+        return None
+    argmap = {i + 1: a for i, a in enumerate(root[2])}
+
+    def acc2(kind, a, inf):
+        a = _facts.expand_ap(F, fn.crate, _facts.subst_ap(a, argmap))
+        r = accept(kind, a, inf)
+        if r is None and kind == "bool":
+            r = helper_accept(F, g, a, accept, inf, depth - 1)
+        return r
+
+    # return-value sources: (block, set of values it can produce, accepted values by the rule)
+    srcs = []
+    for d in g.defs().get(0, []):
+        if d[0] == "stmt" and d[3].get("k") == "use":
+            c = d[3]["a"].get("const") if isinstance(d[3]["a"], dict) else None
+            if c is not None and c.get("ty") == "bool":
+                srcs.append((d[1], {"true" if c.get("int") else "false"}, set()))
+                continue
+            vap, vflip = peel_not(g.apath(d[3]["a"]))
+            a2 = acc2("bool", vap, info)
+            a2 = set() if a2 is None else ({{"true": "false", "false": "true"}.get(x, x) for x in a2} if vflip else set(a2))
+            srcs.append((d[1], {"true", "false"}, a2))
+        elif d[0] == "call":
+            t_ = d[2]
+            nm = _facts.callee_name(t_["callee"]) if "callee" in t_ else "<indirect>"
+            vap = (("call", nm, tuple(g.apath(a) for a in t_["args"]), d[1]), ())
+            a2 = acc2("bool", vap, info)
+            srcs.append((d[1], {"true", "false"}, set() if a2 is None else set(a2)))
+        else:
+            return None
+    if not srcs:
+        return None
+    # cut the accepted edges inside the helper
+    res, matched = cut_gate(g, [b for b, _, _ in srcs], acc2, F=F)
+    out = set()
+    for val in ("true", "false"):
+        ok = True
+        used = False
+        for b, vals, accepted in srcs:
+            if val not in vals:
+                continue
+            if res[b]:
+                used = True          # only reachable through an accepting edge
+                continue
+            if val in accepted:
+                used = True          # the value is the accepted answer of an accepted test
+                continue
+            ok = False
+        if ok and used:
+            out.add(val)
+    return out or None
+
+
+def cut_gate(fn, actions, accept, F=None):
     """Delete the accepting edges of every test matched by accept(kind, apath, info) -> set of accepting edge
     names (or None when the test is not a guard of interest).  Returns (unreached_ok: {action: bool}, matched tests)."""
+    import facts as _facts_
+    if F is None:
+        F = _facts_.CURRENT
     cut = set()
     matched = []
     deferred = []
@@ -185,6 +252,16 @@ def cut_gate(fn, actions, accept):
         if kind == "bool":
             ap, flip = peel_not(ap)
         acc = accept(kind, ap, info)
+        if acc is None and F is not None and kind == "bool":
+            # the same test with a named sub-expression / a named condition (private helpers of this crate)
+            ap2 = _facts_.expand_ap(F, fn.crate, ap)
+            if ap2 != ap:
+                ap2, flip2 = peel_not(ap2)
+                acc = accept(kind, ap2, info)
+                if acc is not None:
+                    ap, flip = ap2, flip != flip2
+            if acc is None:
+                acc = helper_accept(F, fn, ap, accept, info)
         if acc is None and kind == "bool" and ap[0][0] == "local" and not ap[1]:
             deferred.append((s, kind, ap, info, flip))
             continue
